@@ -178,6 +178,8 @@ pub enum Ev {
     Refuse(Refuse),
     /// drop every held observation (fetched gradients, seeds, kept outputs)
     DropHeld,
+    /// placeholder that keeps event indices aligned in forks
+    Nop,
 
     // ---- training (C14); nesting: TrainOpen > ModelOpen > {Fwd, Bwd, Upd} ----
     TrainOpen { layers: Vec<LayerSpec>, cost: CostKind, lr: f64 },
@@ -210,6 +212,7 @@ impl Ev {
             Ev::Retire { .. } => "retire",
             Ev::Refuse(_) => "refuse",
             Ev::DropHeld => "dropheld",
+            Ev::Nop => "nop",
             Ev::TrainOpen { .. } => "trainopen",
             Ev::ModelOpen => "modelopen",
             Ev::Fwd { .. } => "fwd",
